@@ -3,7 +3,7 @@
 (*                                                                                    *)
 (* trace.ndjson (written by harness/coordinator/zz_verif_fanout_test.go) is a         *)
 (* concatenation of runs; every run is                                                *)
-(*   scenario  owners, coord, fault, kind      -> the model is reset to that scenario *)
+(*   scenario  owners, coord, fault, kind, nsrc -> the model is reset to that scenario*)
 (*   map       assign                          -> Map with exactly this assignment    *)
 (*   opStart   op                              -> OpStart                             *)
 (*   call      node, op, shards                -> Call(g, node) of the group whose    *)
@@ -38,7 +38,7 @@ TInit ==
   /\ i = 1
   /\ TLCSet(1, 0)
   /\ owners = [s \in Shards |-> {}] /\ coord = CHOOSE n \in Nodes : TRUE
-  /\ fault = [n \in Nodes |-> "up"] /\ kind = "none"
+  /\ fault = [n \in Nodes |-> "up"] /\ kind = "none" /\ nsrc = 1
   /\ phase = "done"
   /\ assign = [s \in Shards |-> CHOOSE n \in Nodes : TRUE]
   /\ ops = <<>> /\ opOn = FALSE
@@ -47,7 +47,7 @@ TInit ==
   /\ issued = [n \in Nodes |-> {}] /\ failed = [n \in Nodes |-> {}]
   /\ dirty = [n \in Nodes |-> {}] /\ rounds = [n \in Nodes |-> 0]
   /\ metaCalled = {} /\ metaOK = {}
-  /\ reads = [s \in Shards |-> 0] /\ servers = [s \in Shards |-> {}]
+  /\ reads = [s \in Shards |-> 0] /\ servers = [s \in Shards |-> {}] /\ acc = {}
   /\ swallowed = {} /\ mtLost = FALSE /\ ciStalled = FALSE /\ outcome = "none" /\ taint = {}
 
 \* a new run may only start when the previous one was consumed to its end
@@ -56,16 +56,16 @@ StartScenario ==
   /\ owners' = [s \in Shards |-> ToSet(Ev.owners[s])]
   /\ coord' = Ev.coord
   /\ fault' = [n \in Nodes |-> Ev.fault[n]]
-  /\ kind' = Ev.kind
+  /\ kind' = Ev.kind /\ nsrc' = Ev.nsrc
   /\ phase' = "map"
   /\ assign' = [s \in Shards |-> Ev.coord]
-  /\ ops' = OpsOf(Ev.kind) /\ opOn' = FALSE
+  /\ ops' = OpsOf(Ev.kind, Ev.nsrc) /\ opOn' = FALSE
   /\ gst' = [n \in Nodes |-> "none"]
   /\ plan' = [n \in Nodes |-> NoPlan]
   /\ issued' = [n \in Nodes |-> {}] /\ failed' = [n \in Nodes |-> {}]
   /\ dirty' = [n \in Nodes |-> {}] /\ rounds' = [n \in Nodes |-> 0]
   /\ metaCalled' = {} /\ metaOK' = {}
-  /\ reads' = [s \in Shards |-> 0] /\ servers' = [s \in Shards |-> {}]
+  /\ reads' = [s \in Shards |-> 0] /\ servers' = [s \in Shards |-> {}] /\ acc' = {}
   /\ swallowed' = {} /\ mtLost' = FALSE /\ ciStalled' = FALSE /\ outcome' = "none" /\ taint' = {}
   /\ Consume
 
